@@ -4,8 +4,8 @@
 
   Output: `<model>\t<spec>`
     model = post line of the Lean IL semantics (`runBTR`) on the dumped IL from the same state; prefixed
-            with `MIRROR-DIFF ` when the word belongs to a class with a Lean mirror of the lifter
-            (`A64Lift.lift`) and falcon's dumped IL is not syntactically the mirror's IL;
+            with `MIRROR-SAME ` / `MIRROR-DIFF ` when the word belongs to a class with a Lean mirror of the
+            lifter (`A64Lift.lift`) and falcon's dumped IL is / is not syntactically the mirror's IL;
             `rejected` when falcon returned no IL;
     spec  = post line of the A64 interpreter (`A64.step`) on the raw word from the same state, or
             `unallocated` | `unpredictable:<why>` | `fault:<why>`.
@@ -101,11 +101,12 @@ def handle (line : String) : String :=
                   | some r =>
                     let model := postLine (runBTR r m.toState) watch windows
                     let mirror := match A64Lift.lift w addr with
-                      | some r' => if A64Lift.btrEq r' r then "" else "MIRROR-DIFF "
-                      | none => ""
+                      | some r' => if A64Lift.btrEq r' r then "MIRROR-SAME " else "MIRROR-DIFF "
+                      | none => if A64Lift.covered w then "MIRROR-DIFF " else ""
                     mirror ++ model ++ "\t" ++ spec
                   | none => "unparsable\t" ++ spec
                 | _ => "unparsable\t" ++ spec
+            else if (A64Lift.lift w addr).isSome then "MIRROR-DIFF rejected\t" ++ spec
             else "rejected\t" ++ spec
         | _, _ => "bad-request\t-"
       | _, _ => "bad-request\t-"
